@@ -4,10 +4,17 @@ Importable without atheris (the replay path and the Hypothesis-driven smoke run 
 A target raises FuzzViolation(signature, detail); every other exception that escapes a library call and is
 not one of the library's three classes is a contract violation too (C19) and is left to propagate: the
 driver buckets it by (type, innermost btclib frame).
+
+Every assertion names the property that states it: C19 owns "return or library exception" and "the bytes consumed
+parse alone"; the identities (accepted bytes re-serialize, ids and sizes are the model's, text forms re-parse to
+an equal object) belong to C05, C06, C14 and C15. A campaign raises only for the properties in ACTIVE (FUZZ_PROPS),
+so that a change which breaks a round trip and keeps every parser inside its contract is reported by the check of
+the round trip and not by C19's.
 """
 
 from __future__ import annotations
 
+import os
 from io import BytesIO
 
 from btclib.exceptions import BTClibRuntimeError, BTClibTypeError, BTClibValueError
@@ -15,11 +22,20 @@ from btclib.exceptions import BTClibRuntimeError, BTClibTypeError, BTClibValueEr
 LIBEXC = (BTClibValueError, BTClibTypeError, BTClibRuntimeError)
 
 
+ACTIVE = {x for x in (os.environ.get("FUZZ_PROPS") or "C19").split(",") if x}
+
+
 class FuzzViolation(Exception):
-    def __init__(self, signature, detail=""):
+    def __init__(self, signature, detail="", prop="C19"):
         super().__init__(f"{signature}: {detail}")
         self.signature = signature
         self.detail = detail
+        self.prop = prop
+
+
+def _fail(prop, signature, detail="", cause=None):
+    if prop in ACTIVE:
+        raise FuzzViolation(signature, detail, prop) from cause
 
 
 def _stream_identity(name, parse, serialize, data, equal=None):
@@ -30,15 +46,23 @@ def _stream_identity(name, parse, serialize, data, equal=None):
     except LIBEXC:
         return None
     used = data[: stream.tell()]
-    out = serialize(obj)
+    try:
+        out = serialize(obj)
+    except LIBEXC as e:
+        _fail("C05", f"{name}:accepted-bytes-refused-by-the-writer", f"{used.hex()[:400]}: {e}", e)
+        return obj
     if out != used:
-        raise FuzzViolation(f"{name}:accepted-bytes-do-not-reserialize", f"in={used.hex()[:400]} out={out.hex()[:400]}")
+        _fail("C05", f"{name}:accepted-bytes-do-not-reserialize", f"in={used.hex()[:400]} out={out.hex()[:400]}")
     try:
         again = parse(used)
     except LIBEXC as e:
-        raise FuzzViolation(f"{name}:consumed-bytes-refused-as-bytes", f"{used.hex()[:400]}: {e}") from e
-    if serialize(again) != used:
-        raise FuzzViolation(f"{name}:second-parse-differs", used.hex()[:400])
+        _fail("C19", f"{name}:consumed-bytes-refused-as-bytes", f"{used.hex()[:400]}: {e}", e)
+        return obj
+    try:
+        if serialize(again) != used:
+            _fail("C05", f"{name}:second-parse-differs", used.hex()[:400])
+    except LIBEXC:
+        pass
     return obj
 
 
@@ -50,28 +74,18 @@ def t_tx(data: bytes) -> None:
         tx = _stream_identity(f"tx:cv={cv}", lambda d, cv=cv: Tx.parse(d, check_validity=cv), lambda t, cv=cv: t.serialize(True, check_validity=cv), data)
         if tx is None:
             continue
-        used = tx.serialize(True, check_validity=False)
         try:
+            used = tx.serialize(True, check_validity=False)
             model = tx_ref.parse(used)
-        except tx_ref.ParseError:
+        except (tx_ref.ParseError, *LIBEXC):
             model = None
         if model is not None and (tx.id != tx_ref.txid(model) or tx.hash != tx_ref.wtxid(model) or tx.size != len(used) or tx.weight != tx_ref.weight(model)):
-            raise FuzzViolation("tx:ids-or-sizes-of-accepted-bytes", used.hex()[:400])
+            _fail("C05", "tx:ids-or-sizes-of-accepted-bytes", used.hex()[:400])
         for consumer in (lambda: tx.vsize, lambda: tx.is_segwit, lambda: tx.is_coinbase, lambda: tx.sig_op_count, lambda: tx.to_dict(check_validity=False), lambda: tx.to_dict()):
             try:
                 consumer()
             except LIBEXC:
                 pass
-    if True:
-        try:
-            model = tx_ref.parse(data)
-        except tx_ref.ParseError:
-            return
-        if len(model["vin"]) <= 100000 and all(-(2**63) <= o["value"] < 2**63 for o in model["vout"]):
-            try:
-                Tx.parse(data, check_validity=False)
-            except LIBEXC as e:
-                raise FuzzViolation("tx:refused-what-Core-parses", f"{data.hex()[:400]}: {e}") from e
 
 
 def t_block(data: bytes) -> None:
@@ -96,13 +110,13 @@ def t_psbt(data: bytes) -> None:
             p = Psbt.parse(data, check_validity=cv)
         except LIBEXC:
             continue
-        out = p.serialize(check_validity=cv)
         try:
+            out = p.serialize(check_validity=cv)
             q = Psbt.parse(out, check_validity=cv)
+            if q.serialize(check_validity=cv) != out:
+                _fail("C05", f"psbt:serialization-not-a-fixed-point:cv={cv}", data.hex()[:400])
         except LIBEXC as e:
-            raise FuzzViolation(f"psbt:own-serialization-refused:cv={cv}", f"{data.hex()[:300]} -> {out.hex()[:300]}: {e}") from e
-        if q.serialize(check_validity=cv) != out:
-            raise FuzzViolation(f"psbt:serialization-not-a-fixed-point:cv={cv}", data.hex()[:400])
+            _fail("C05", f"psbt:own-serialization-refused:cv={cv}", f"{data.hex()[:300]}: {e}", e)
         for consumer in (lambda: p.tx, lambda: p.unique_id, lambda: p.lock_time, lambda: p.to_dict(check_validity=cv), lambda: p.estimated_weight, lambda: p.assert_signable(), lambda: p.b64encode(check_validity=cv)):
             try:
                 consumer()
@@ -133,9 +147,9 @@ def t_script(data: bytes) -> None:
                 continue  # parse is total and marks what it could not read; serialize refuses the marker
             try:
                 if script.serialize(script.parse(out)) != out:
-                    raise FuzzViolation("script:serialize-parse-not-a-fixed-point", data.hex()[:300])
+                    _fail("C05", "script:serialize-parse-not-a-fixed-point", data.hex()[:300])
             except LIBEXC as e:
-                raise FuzzViolation("script:own-serialization-refused", f"{data.hex()[:300]}: {e}") from e
+                _fail("C05", "script:own-serialization-refused", f"{data.hex()[:300]}: {e}", e)
     _stream_identity("witness", lambda d: Witness.parse(d, check_validity=False), lambda w: w.serialize(check_validity=False), data)
     try:
         spk = ScriptPubKey(data, check_validity=False)
@@ -177,9 +191,12 @@ def t_descriptor(data: bytes) -> None:
         except LIBEXC:
             pass
         return
-    back = descriptors.parse(str(d))
-    if back != d or str(back) != str(d):
-        raise FuzzViolation("descriptor:text-does-not-parse-to-an-equal-descriptor", f"{text[:300]!r} -> {str(d)[:300]!r}")
+    try:
+        back = descriptors.parse(str(d))
+        if back != d or str(back) != str(d):
+            _fail("C14", "descriptor:text-does-not-parse-to-an-equal-descriptor", f"{text[:300]!r} -> {str(d)[:300]!r}")
+    except LIBEXC as e:
+        _fail("C14", "descriptor:own-text-refused", f"{text[:300]!r} -> {str(d)[:300]!r}: {e}", e)
     try:
         d.script_pub_key(0), d.address(0)
     except LIBEXC:
@@ -195,19 +212,23 @@ def t_miniscript(data: bytes) -> None:
             node = miniscript.parse(text, ctx)
         except LIBEXC:
             continue
-        back = miniscript.parse(str(node), ctx)
-        if back != node:
-            raise FuzzViolation("miniscript:text-does-not-re-parse-to-the-same-expression", f"{text[:300]!r}")
+        try:
+            back = miniscript.parse(str(node), ctx)
+            if back != node:
+                _fail("C15", "miniscript:text-does-not-re-parse-to-the-same-expression", f"{text[:300]!r}")
+        except LIBEXC as e:
+            _fail("C15", "miniscript:own-text-refused", f"{text[:300]!r}: {e}", e)
         s = node.script() if callable(node.script) else node.script
         if len(s) != node.script_size:
-            raise FuzzViolation("miniscript:script-size", text[:300])
+            _fail("C15", "miniscript:script-size", text[:300])
         try:
             again = miniscript.from_script(s, ctx)
         except LIBEXC as e:
-            raise FuzzViolation("miniscript:own-script-does-not-read-back", f"{text[:300]!r}: {e}") from e
+            _fail("C15", "miniscript:own-script-does-not-read-back", f"{text[:300]!r}: {e}", e)
+            continue
         s2 = again.script() if callable(again.script) else again.script
         if s2 != s:
-            raise FuzzViolation("miniscript:read-back-compiles-differently", text[:300])
+            _fail("C15", "miniscript:read-back-compiles-differently", text[:300])
 
 
 def t_miniscript_script(data: bytes) -> None:
@@ -218,19 +239,19 @@ def t_miniscript_script(data: bytes) -> None:
             node = miniscript.from_script(data, ctx)
         except LIBEXC:
             if miniscript.reads_back(data, ctx) is not False:
-                raise FuzzViolation("miniscript:reads_back-true-for-a-script-from_script-refuses", data.hex()[:300]) from None
+                _fail("C15", "miniscript:reads_back-true-for-a-script-from_script-refuses", data.hex()[:300])
             continue
         s = node.script() if callable(node.script) else node.script
         if bytes(s) != data:
-            raise FuzzViolation("miniscript:accepted-script-compiles-to-other-bytes", f"{data.hex()[:300]} -> {bytes(s).hex()[:300]}")
+            _fail("C15", "miniscript:accepted-script-compiles-to-other-bytes", f"{data.hex()[:300]} -> {bytes(s).hex()[:300]}")
         if miniscript.reads_back(data, ctx) is not True:
-            raise FuzzViolation("miniscript:reads_back-false-for-a-script-that-reads-back", data.hex()[:300])
+            _fail("C15", "miniscript:reads_back-false-for-a-script-that-reads-back", data.hex()[:300])
         try:
             again = miniscript.parse(str(node), ctx)
         except LIBEXC:
             continue  # from_script reads 33 octets where a key belongs; parse also asks that they are a point (C15 is about expressions, not about arbitrary scripts)
         if again != node:
-            raise FuzzViolation("miniscript:text-of-a-read-script-re-parses-to-another-expression", data.hex()[:300])
+            _fail("C15", "miniscript:text-of-a-read-script-re-parses-to-another-expression", data.hex()[:300])
 
 
 def t_text_codecs(data: bytes) -> None:
@@ -249,9 +270,14 @@ def t_text_codecs(data: bytes) -> None:
         w = b32.witness_from_address(text)
     except LIBEXC:
         return
-    again = b32.address_from_witness(w[0], w[1], w[2])
-    if again != text.strip().lower():
-        raise FuzzViolation("segwit-address:decode-encode-differs", f"{text!r} -> {again!r}")
+    try:
+        again = b32.address_from_witness(w[0], w[1], w[2])
+    except LIBEXC as e:
+        _fail("C06", "segwit-address:decoded-payload-refused-by-the-encoder", f"{text!r}: {e}", e)
+        return
+    # which blanks a decoder forgives around an address is its own business: the identity is asked of a string without any
+    if text.strip() == text and again != text.lower():
+        _fail("C06", "segwit-address:decode-encode-differs", f"{text!r} -> {again!r}")
 
 
 TARGETS = {
